@@ -66,7 +66,7 @@ def st_sep():
 
 @subcheck("C07", "mol_rks_vs_uks", st_closed, quick=36, thorough=400, tolerances=TOL, shrink=False,
           rule="G-mol x restricted PSD dm x G-model x calc options: nr_rks(dm) vs nr_uks((dm/2, dm/2)) on separately built "
-               "calculators: excsum equal, v_alpha == v_beta == v_rks, nelec halves; non-trivial = model has an ML part and "
+               "calculators or (half of the cases, as after mf.to_uks()) on the same integrator object: excsum equal, v_alpha == v_beta == v_rks, nelec halves; non-trivial = model has an ML part and "
                "|E| > 1e-6; distinct by (molecule class, model signature, calc options); all three spin modes counted")
 def mol_rks_vs_uks(case, ctx):
     fam = _events(case, ctx)
@@ -74,6 +74,11 @@ def mol_rks_vs_uks(case, ctx):
     _, _, ks_u = _setup(case, True)
     dm = G.build_dm(mol, case["dm"])[0][0]["dm"]
     n1, e1, v1 = ks_r._numint.nr_rks(mol, ks_r.grids, ks_r.xc, dm)
+    if case["dm"]["seed"] % 2:
+        # mf.to_uks() hands the restricted calculation's integrator object (and grids) to the unrestricted one: in half
+        # of the cases the unrestricted evaluation runs on the integrator that has just done the restricted one
+        ctx.event("shared_integrator")
+        ks_u = ks_r
     n2, e2, v2 = ks_u._numint.nr_uks(mol, ks_u.grids, ks_u.xc, np.array([0.5 * dm, 0.5 * dm]))
     tol = _tol(case)
     modes = "/".join(sorted(set(k["mode"] for k in case["model"]["kernels"])))
